@@ -68,7 +68,8 @@ def generate(seed: int, tier: str) -> Dict[str, Any]:
         others = sorted(set(world["agents"]) | {"world"})
         for src in r.sample(world["episodes"], min(len(world["episodes"]), r.randint(1, 2))):
             cp = dict(src)
-            cp["owner"] = r.choice([o for o in others if o != src.get("owner")] or others)
+            # (a third of the time the same owner stores the id again: a newer version of its own note)
+            cp["owner"] = src.get("owner") if r.chance(0.33) else r.choice([o for o in others if o != src.get("owner")] or others)
             cp["ts"] = E.iso_from_ms(E.T0_MS - 1000).replace("+00:00", "Z")
             cp["importance"] = 1.0
             cp["text"] = " ".join(r.sample(E.VOCAB, 2))
@@ -211,10 +212,10 @@ def execute(p: Dict[str, Any]) -> Dict[str, Any]:
                 for x in res.retrieved:
                     xo = getattr(x, "owner", None)
                     if xo is not None:
-                        for e in idx._eps:
-                            if str(e["id"]) == str(x.id) and str(e.get("owner")) == str(xo):
-                                eps[str(x.id)] = e
-                                break
+                        cands = [e for e in idx._eps if str(e["id"]) == str(x.id) and str(e.get("owner")) == str(xo)]
+                        same_text = [e for e in cands if str(e.get("text", "")) == str(getattr(x, "text", ""))]
+                        if same_text or cands:
+                            eps[str(x.id)] = (same_text or cands)[0]
                 ids = [str(x.id) for x in res.retrieved]
                 ctxs = "agent=%s text=%r scope=%s k=%d thr=%s tiers=%s served_from_cache=%s" % (
                     ctx.agent_id, text, scope, k, thr, cfg_t2.get("tiers"), not fresh)
